@@ -12,12 +12,12 @@ from redun.functools import apply_func, flat_map, map_, seq
 from redun.scheduler import apply_tags, catch, catch_all, cond, fork_thread, join_thread, throw
 
 import vf_types as T
-from vf_types import VErr
+from vf_types import LockErr, VErr
 
 redun_namespace = "vf"
 
 ERR = {"ValueError": ValueError, "KeyError": KeyError, "ZeroDivisionError": ZeroDivisionError,
-       "VErr": VErr, "Exception": Exception, "LookupError": LookupError, "ArithmeticError": ArithmeticError}
+       "VErr": VErr, "LockErr": LockErr, "Exception": Exception, "LookupError": LookupError, "ArithmeticError": ArithmeticError}
 
 # Semantics of the lazy operators (what redun.expression registers), always "left OP right".
 SEM = {
